@@ -167,6 +167,14 @@ def _inline_returned_helpers(model: Model, fi: FuncInfo, body: List[ast.stmt]) -
                     out.extend(rep)
                     changed = True
                     continue
+            if isinstance(st, ast.Assign) and len(st.targets) == 1 and isinstance(st.targets[0], ast.Name) and isinstance(st.value, ast.Call):
+                # x = self._h(..) where _h is `checks..; return e` (one return, the last statement): the checks, then x = e
+                pseudo = ast.copy_location(ast.Return(value=st.value), st)
+                rep = _tail_helper_body(model, fi, [pseudo], all_names, assign_to=st.targets[0].id)
+                if rep is not None:
+                    out.extend(rep)
+                    changed = True
+                    continue
             if isinstance(st, ast.Expr) and isinstance(st.value, ast.Call):
                 # a statement that calls a private single-use *procedure* (no return in it): its statements, here
                 pseudo = ast.copy_location(ast.Return(value=st.value), st)
@@ -175,7 +183,7 @@ def _inline_returned_helpers(model: Model, fi: FuncInfo, body: List[ast.stmt]) -
                     out.extend(rep)
                     changed = True
                     continue
-            if isinstance(st, (ast.If, ast.For, ast.While, ast.With, ast.Try)) and any((isinstance(x, ast.Return) and isinstance(x.value, ast.Call)) or (isinstance(x, ast.Expr) and isinstance(x.value, ast.Call)) for x in ast.walk(st)):
+            if isinstance(st, (ast.If, ast.For, ast.While, ast.With, ast.Try)) and any((isinstance(x, ast.Return) and isinstance(x.value, ast.Call)) or (isinstance(x, ast.Expr) and isinstance(x.value, ast.Call)) or (isinstance(x, ast.Assign) and isinstance(x.value, ast.Call)) for x in ast.walk(st)):
                 st2 = copy.copy(st)
                 for fld in ("body", "orelse", "finalbody"):
                     if isinstance(getattr(st2, fld, None), list):
@@ -196,7 +204,7 @@ def _inline_returned_helpers(model: Model, fi: FuncInfo, body: List[ast.stmt]) -
     return new, changed
 
 
-def _tail_helper_body(model: Model, fi: FuncInfo, body: List[ast.stmt], caller_names=None, procedure: bool = False) -> Optional[List[ast.stmt]]:
+def _tail_helper_body(model: Model, fi: FuncInfo, body: List[ast.stmt], caller_names=None, procedure: bool = False, assign_to: Optional[str] = None) -> Optional[List[ast.stmt]]:
     """`...; return self._h(a, b)` where _h is a private helper called from nowhere else and a, b are locals: the
     statements of _h with its parameters renamed to a, b (its other locals get a suffix when they would collide)."""
     from .lib import call_sites_of
@@ -224,6 +232,10 @@ def _tail_helper_body(model: Model, fi: FuncInfo, body: List[ast.stmt], caller_n
     nested = [x for st in h.node.body for x in ast.walk(st) if isinstance(x, (ast.FunctionDef, ast.Lambda))]
     if procedure and any(isinstance(x, ast.Return) for st in h.node.body for x in ast.walk(st)):
         return None
+    if assign_to is not None:
+        rets_ = [x for st in h.node.body for x in ast.walk(st) if isinstance(x, ast.Return)]
+        if len(rets_) != 1 or rets_[0] is not h.node.body[-1] or rets_[0].value is None:
+            return None
     ren: Dict[str, str] = {}
     if skip:
         if not (isinstance(call.func, ast.Attribute) and isinstance(call.func.value, ast.Name)):
@@ -266,6 +278,8 @@ def _tail_helper_body(model: Model, fi: FuncInfo, body: List[ast.stmt], caller_n
     out = list(pre)
     for st in hb:
         c_ = _R().visit(clone_ast(st))
+        if assign_to is not None and st is hb[-1]:
+            c_ = ast.copy_location(ast.Assign(targets=[ast.Name(id=assign_to, ctx=ast.Store())], value=c_.value, type_comment=None), body[-1])
         c_._fresh = True  # type: ignore
         out.append(c_)
     return out
